@@ -1,0 +1,31 @@
+//go:build verif
+
+// Contracts for the verification engine in /verif (govc). This file contains comments only:
+// it adds no code with or without the build tag "verif". Syntax: /verif/DESIGN.md section 3.2.
+
+package fuse
+
+// ---- inode allocator (C18: "never gives two live entries the same inode") -------------------
+// live(g,x): x has been handed out and not freed, in terms of the allocator's own state.
+
+//@ pred wfGen(g) = firstINode <= g.highestInode
+//@ | && (forall i int :: 0 <= i && i < len(g.freeInodes) ==> firstINode < g.freeInodes[i] && g.freeInodes[i] <= g.highestInode)
+//@ | && (forall i int, j int :: 0 <= i && i < j && j < len(g.freeInodes) ==> g.freeInodes[i] != g.freeInodes[j])
+//@ pred live(g, x) = firstINode < x && x <= g.highestInode
+//@ | && (forall i int :: 0 <= i && i < len(g.freeInodes) ==> g.freeInodes[i] != x)
+
+//@ func (*iNodeGenerator).allocINode
+//@   requires wfGen(g)
+//@   ensures [wf] wfGen(g)
+//@   ensures [fresh] !old(live(g, result))
+//@   ensures [live] live(g, result)
+//@   ensures [others-kept] forall x int :: x != result && old(live(g, x)) ==> live(g, x)
+//@   ensures [others-new] forall x int :: x != result && live(g, x) ==> old(live(g, x))
+
+//@ func (*iNodeGenerator).freeINode
+//@   requires wfGen(g)
+//@   requires live(g, iNode)
+//@   ensures [wf] wfGen(g)
+//@   ensures [freed] !live(g, iNode)
+//@   ensures [others-kept] forall x int :: x != iNode && old(live(g, x)) ==> live(g, x)
+//@   ensures [others-new] forall x int :: x != iNode && live(g, x) ==> old(live(g, x))
